@@ -255,7 +255,13 @@ def run_unit(unit, repo='/repo', tier='quick', only=None, jobs=6, props=None):
                     res['discharged'] += 1
             else:
                 only_unwind = r['checks_failed'] and all('unwind' in c['id'] for c in r['checks_failed'])
-                if only_unwind:
+                if not r['checks_failed']:
+                    # "VERIFICATION:- FAILED" without a single failed check: the back end died (out of memory under the
+                    # ulimit, CBMC internal error).  That is a tool limit, not a verdict about the code.
+                    why = 'out of memory' if re.search(r'[Oo]ut of memory|std::bad_alloc', r.get('tail') or '') else 'back end failed'
+                    undec.append('%s: %s without any failed check (exit %s)' % (h['name'], why, r['exit']))
+                    r['status'] = 'undecided'
+                elif only_unwind:
                     undec.append('%s: unwinding assertion failed (bound too small), no property check failed' % h['name'])
                     r['status'] = 'undecided'
                 else:
